@@ -1640,6 +1640,14 @@ func (e *env) checkEvidence(c core.Case, opIdx int, er evRec) []core.Finding {
 	if common == nil || trusted == nil {
 		return nil // e.g. forward lunatic attack: the node would fall back to its latest block
 	}
+	if bytes.Equal(trusted.lb.Hash(), ev.ConflictingBlock.Hash()) {
+		// the evidence names the receiver's OWN block as the conflicting one (seen after a primary
+		// replacement in the middle of a call): from that node's point of view nothing conflicts and
+		// it drops the evidence whatever its fields say — there is no "full node on the other side"
+		// for the field rules to speak about
+		ocount("evidence-names-receivers-own-block")
+		return nil
+	}
 	ocount("evidence-checked-against-receiver-chain")
 	mk := func(field, why string) []core.Finding {
 		return []core.Finding{{Fingerprint: "light.newLightClientAttackEvidence.wrong-" + field,
